@@ -851,30 +851,36 @@ def strings_family():
                                "first_diff": (hout[:200], out[:200], herr[-200:])})
         return st
     reported = False
+    unlisted = 0
     for i, x in enumerate(strs):
         hS, hD, hR = hl[3 * i:3 * i + 3]
         mS, mD, mR, mF = ml[4 * i:4 * i + 4]
-        if (hS, hD, hR) != (mS, mD, mR):
+        model_agrees = (hS, hD, hR) == (mS, mD, mR)
+        if not model_agrees:
             st["model_ne_code"] += 1
             if st["model_ne_code"] == 1:
                 ck.broken_ties.append({"kind": "correspondence", "name": "stringify/destringifyC (literal model) vs c2mir.c",
                                        "first_diff": {"s": x, "code": (hS, hD, hR), "model": (mS, mD, mR)}})
-            continue
         want = "D " + G.hx(x)
-        if hD != want:
-            st["roundtrip_fails"] += 1
-            fixed_ok = mF == "F " + G.hx(x)
-            sig = "C09:destringify-escape-pairs" if fixed_ok else None
-            if sig and reported:
-                continue
-            reported = reported or bool(sig)
-            ck.violation({"stage": "tie", "theorem_or_correspondence": "stringify_roundtrip",
-                          "input": {"kind": "string", "s": x},
-                          "model_output": {"stringify": mS, "destringify(stringify)": mD},
-                          "impl_output": {"stringify": hS, "destringify(stringify)": hD},
-                          "spec_verdict": "destringify (stringify s) != s on the real static functions",
-                          "how_to_rerun": "cd /verif && ./check C09 --tier quick"},
-                         what="destringify does not invert stringify", signature=sig)
+        if hD == want:
+            continue
+        st["roundtrip_fails"] += 1
+        rep = {"stage": "tie", "theorem_or_correspondence": "stringify_roundtrip",
+               "input": {"kind": "string", "s": x},
+               "model_output": {"stringify": mS, "destringify(stringify)": mD},
+               "impl_output": {"stringify": hS, "destringify(stringify)": hD},
+               "spec_verdict": "destringify (stringify s) != s on the real static functions",
+               "how_to_rerun": "cd /verif && ./check C09 --tier quick"}
+        if model_agrees and mF == "F " + G.hx(x):
+            if not reported:
+                reported = True
+                ck.violation(rep, what="destringify does not invert stringify", signature="C09:destringify-escape-pairs")
+        elif mD == want or hS != mS:
+            # the literal model round-trips this string (or stringify itself differs): not the listed defect
+            unlisted += 1
+            if unlisted <= 2:
+                ck.violation(rep, what="destringify (stringify s) != s and the literal model of the two functions "
+                                       "does not predict it", signature=None)
     return st
 
 
